@@ -734,7 +734,9 @@ func (e *Env) sel(v *SV, name string) *SV {
 	}
 	for i := 0; i < su.NumFields(); i++ {
 		if su.Field(i).Name() == name {
-			return &SV{S: "(" + c.fieldAcc(sn, name, i) + " " + v.S + ")", T: su.Field(i).Type()}
+			term := "(" + c.fieldAcc(sn, name, i) + " " + v.S + ")"
+			c.noteTyped(term, su.Field(i).Type(), e.st.alloc)
+			return &SV{S: term, T: su.Field(i).Type()}
 		}
 	}
 	specFail("no field %s in %s", name, t)
